@@ -11,6 +11,11 @@ from sklearn.metrics.pairwise import (
 )
 from sklearn.utils import check_random_state, check_array
 from sklearn.utils.validation import _num_samples, check_is_fitted
+
+try:
+    from sklearn.utils.validation import validate_data
+except ImportError:  # scikit-learn < 1.6
+    validate_data = None
 from sklearn.utils.extmath import stable_cumsum
 
 try:
@@ -568,13 +573,20 @@ class KMeansL1L2(KMeans):
 
         # avoid forcing order when copy_x=False
         order = "C" if self.copy_x else None
-        X = check_array(
-            X,
+        # Like KMeans.fit, records the number (and the names) of the features
+        # of this training set: what a previous fit left (possibly with
+        # norm='L2') must not be used to check the data given to transform.
+        kwargs = dict(
             accept_sparse="csr",
             dtype=[numpy.float64, numpy.float32],
             order=order,
             copy=self.copy_x,
+            reset=True,
         )
+        if validate_data is None:
+            X = self._validate_data(X, **kwargs)
+        else:
+            X = validate_data(self, X, **kwargs)
         # verify that the number of samples given is larger than k
         if _num_samples(X) < self.n_clusters:
             raise ValueError(  # pragma no cover
